@@ -1,11 +1,17 @@
-"""C06: the LibYAML back-end is a drop-in replacement (binding-side sibling rules + Python-side grammar oracle)."""
+"""C06: the LibYAML back-end is a drop-in replacement (binding-side sibling rules + Python-side grammar oracle).
+
+Every rule here states facts about the resolved program: variables are found by their role (the parameter at position i,
+the local that receives the constructed node, the counter that is initialised to 0 and incremented once per iteration),
+conditions are evaluated on the short-circuit CFG under small abstract "worlds" (which enum member, which next token,
+which distance), and the two siblings are compared with each other feature by feature.
+"""
 import ast
 import re
 
 from . import astutil as A
-from . import charworld as CW
+from . import match as M
 from .cfg import CFG, own_exprs
-from .srcmodel import AnalysisError, ClassInfo, FuncInfo, norm, walk_function
+from .srcmodel import AnalysisError, ClassInfo, norm, walk_function
 
 PAIRS_LOADERS = [('loader.BaseLoader', 'cyaml.CBaseLoader'), ('loader.SafeLoader', 'cyaml.CSafeLoader'),
                  ('loader.FullLoader', 'cyaml.CFullLoader'), ('loader.UnsafeLoader', 'cyaml.CUnsafeLoader'),
@@ -16,33 +22,182 @@ FRONT = {'reader.Reader', 'scanner.Scanner', 'parser.Parser', 'composer.Composer
 BACK = {'emitter.Emitter', 'serializer.Serializer'}
 
 
-def _substantive(k):
-    """a class that adds nothing of its own (class Constructor(UnsafeConstructor): pass) is transparent."""
-    return bool(k.methods) or bool(k.attrs)
+# ------------------------------------------------------------------------------------------------
+# small role-finding helpers shared by the rules
+
+def _nm(ident):
+    return ast.Name(id=ident, ctx=ast.Load())
+
+
+def _dump(n):
+    """structural identity of an expression, independent of load/store context."""
+    return ast.dump(n).replace('ctx=Store()', 'ctx=Load()').replace('ctx=Del()', 'ctx=Load()')
+
+
+def _is_self_attr(e, attr=None):
+    return isinstance(e, ast.Attribute) and isinstance(e.value, ast.Name) and e.value.id == 'self' \
+        and (attr is None or e.attr == attr)
+
+
+def _is_self_call(c, names):
+    """c is the call `self.<name>(...)` with name in names."""
+    return isinstance(c, ast.Call) and _is_self_attr(c.func) and c.func.attr in names
+
+
+def _is_none(e):
+    return isinstance(e, ast.Constant) and e.value is None
+
+
+def _param(f, i, what):
+    if len(f.params) <= i:
+        raise AnalysisError('%s: expected a parameter at position %d (%s)' % (f.qualname, i, what))
+    return f.params[i]
+
+
+def _cfg_nodes_where(cfg, pred):
+    """CFG nodes at which an expression satisfying pred is evaluated."""
+    out = []
+    for n in cfg.nodes:
+        if n.ast is None:
+            continue
+        if any(pred(x) for x in own_exprs(n)):
+            out.append(n)
+    return out
+
+
+def _succs(cfg, n):
+    return [m for (m, lab) in cfg.succ[n]]
+
+
+def _decide_identity(repo, mod, test):
+    """value of `A is B` / `A == B` (and negations) for two global names bound to classes, else None."""
+    if isinstance(test, ast.Compare) and len(test.ops) == 1 and isinstance(test.ops[0], (ast.Is, ast.IsNot, ast.Eq, ast.NotEq)) \
+            and isinstance(test.left, ast.Name) and isinstance(test.comparators[0], ast.Name):
+        a, b = test.left.id, test.comparators[0].id
+        pos = isinstance(test.ops[0], (ast.Is, ast.Eq))
+        if a == b:
+            return pos
+        ra, rb = repo.resolve_name(mod, a), repo.resolve_name(mod, b)
+        if ra is not None and rb is not None and ra.kind == 'class' and rb.kind == 'class':
+            return (ra.obj is rb.obj) == pos
+    return None
+
+
+def _fold(repo, mod, e):
+    """a conditional expression whose test compares two class names (left behind when a helper parametrised by the
+    node class is inlined: `event.value if ScalarNode is ScalarNode else None`) is replaced by the arm that is taken."""
+    while isinstance(e, ast.IfExp):
+        v = _decide_identity(repo, mod, e.test)
+        if v is None:
+            break
+        e = e.body if v else e.orelse
+    return e
+
+
+def _counter_protocol(cfg, name, use):
+    """`name` is a position counter for the CFG node `use`: it is 0 the first time `use` is reached and is incremented by one
+    between any two visits."""
+    inits = [n for n in cfg.nodes if n.kind == 'stmt' and isinstance(n.ast, ast.Assign) and len(n.ast.targets) == 1
+             and isinstance(n.ast.targets[0], ast.Name) and n.ast.targets[0].id == name
+             and isinstance(n.ast.value, ast.Constant) and n.ast.value.value == 0 and not isinstance(n.ast.value.value, bool)]
+    incs = [n for n in cfg.nodes if n.kind == 'stmt' and isinstance(n.ast, ast.AugAssign) and isinstance(n.ast.target, ast.Name)
+            and n.ast.target.id == name and isinstance(n.ast.op, ast.Add) and isinstance(n.ast.value, ast.Constant)
+            and n.ast.value.value == 1]
+    others = [n for n in cfg.nodes if n.kind in ('stmt', 'for') and n not in inits and n not in incs and _stores(n, name)]
+    if not inits or not incs or others:
+        return False
+    if not cfg.guarded(use, nodes=inits):
+        return False
+    for i in inits:
+        # no increment can slip in between the initialisation and the first use
+        r = cfg.reach(_succs(cfg, i), blocked=[use])
+        if any(x in r for x in incs):
+            return False
+    # around the loop: from one use to the next, an increment is passed
+    return use not in cfg.reach(_succs(cfg, use), blocked=incs + inits)
+
+
+def _stores(n, name):
+    a = n.ast
+    if n.kind == 'for':
+        return any(isinstance(x, ast.Name) and x.id == name and isinstance(x.ctx, ast.Store) for x in ast.walk(n.stmt.target))
+    if isinstance(a, ast.Assign):
+        return any(isinstance(x, ast.Name) and x.id == name and isinstance(x.ctx, ast.Store) for t in a.targets for x in ast.walk(t))
+    if isinstance(a, (ast.AugAssign, ast.AnnAssign)):
+        return isinstance(a.target, ast.Name) and a.target.id == name
+    return False
+
+
+# ------------------------------------------------------------------------------------------------
+
+def _registered_on(repo):
+    """classes that receive registrations from module-level statements (`Resolver.add_implicit_resolver(...)`): such a
+    class has content of its own although its body is empty."""
+    out = set()
+
+    def scan(m, body):
+        for st in body:
+            if isinstance(st, ast.Expr) and isinstance(st.value, ast.Call) and isinstance(st.value.func, ast.Attribute) \
+                    and isinstance(st.value.func.value, ast.Name):
+                r = repo.resolve_name(m, st.value.func.value.id)
+                if r is not None and r.kind == 'class':
+                    out.add(r.obj.qualname)
+            elif isinstance(st, (ast.For, ast.While, ast.If, ast.Try, ast.With)):
+                for sub in ('body', 'orelse', 'finalbody'):
+                    scan(m, getattr(st, sub, None) or [])
+                for h in getattr(st, 'handlers', None) or []:
+                    scan(m, h.body)
+    for m in repo.modules.values():
+        scan(m, m.tree.body)
+    return out
+
+
+def _composition(repo, K, dropped, registered):
+    """the MRO of K reduced to what matters: classes of the reference inventory that contribute something.  A class that adds
+    nothing of its own (class Constructor(UnsafeConstructor): pass) is transparent; so is a private base / mixin that a
+    refactoring introduced (its members are seen as members of the inventoried class that inherits it)."""
+    out = []
+    for k in K.mro_classes()[1:]:
+        if k.qualname in repo.new_classes or k.qualname in dropped:
+            continue
+        if k.methods or k.attrs or k.qualname in registered:
+            out.append(k.qualname)
+    return out
+
+
+def _first_inventoried_base(repo, K):
+    for k in K.mro_classes()[1:]:
+        if k.qualname not in repo.new_classes:
+            return k.qualname
+    return None
 
 
 def r_class_composition(ctx, repo):
     rule = ctx.rule('R-CLASS-COMPOSITION', 'each C loader/dumper has the same constructor/representer and resolver classes in its MRO as its '
                                            'Python counterpart, with CParser / CEmitter replacing exactly the front-end / back-end components')
+    registered = _registered_on(repo)
+
+    def short(qs):
+        return [x.split('.')[-1] for x in qs]
     for pq, cq in PAIRS_LOADERS:
         P, C = repo.cls(pq), repo.cls(cq)
-        pm = [k.qualname for k in P.mro_classes()[1:] if k.qualname not in FRONT and _substantive(k)]
-        cm = [k.qualname for k in C.mro_classes()[1:] if k.qualname != '_yaml.CParser' and _substantive(k)]
-        replaced = [k.qualname for k in P.mro_classes()[1:] if k.qualname in FRONT]
-        if pm == cm and set(replaced) == FRONT and C.mro_classes()[1].qualname == '_yaml.CParser':
-            rule.ok('%s:%d' % (C.module.rel, C.node.lineno), '%s ~ %s: %s' % (C.name, P.name, [x.split('.')[-1] for x in cm]))
+        pm = _composition(repo, P, FRONT, registered)
+        cm = _composition(repo, C, {'_yaml.CParser'}, registered)
+        replaced = {k.qualname for k in P.mro_classes()[1:] if k.qualname in FRONT}
+        if pm == cm and replaced == FRONT and _first_inventoried_base(repo, C) == '_yaml.CParser':
+            rule.ok('%s:%d' % (C.module.rel, C.node.lineno), '%s ~ %s: %s' % (C.name, P.name, short(cm)))
         else:
             rule.fail('%s|%s' % (cq, ','.join(cm)), C.module.rel, C.node.lineno, cq,
                       'class %s(%s)' % (C.name, ', '.join(norm(b) for b in C.base_exprs)),
                       '%s composes %s but its Python counterpart %s composes %s: the two back-ends construct different objects '
-                      'from the same document' % (cq, [x.split('.')[-1] for x in cm], pq, [x.split('.')[-1] for x in pm]))
+                      'from the same document' % (cq, short(cm), pq, short(pm)))
     for pq, cq in PAIRS_DUMPERS:
         P, C = repo.cls(pq), repo.cls(cq)
-        pm = [k.qualname for k in P.mro_classes()[1:] if k.qualname not in BACK and _substantive(k)]
-        cm = [k.qualname for k in C.mro_classes()[1:] if k.qualname not in ({'_yaml.CEmitter'} | BACK) and _substantive(k)]
-        first = C.mro_classes()[1].qualname
+        pm = _composition(repo, P, BACK, registered)
+        cm = _composition(repo, C, {'_yaml.CEmitter'} | BACK, registered)
+        first = _first_inventoried_base(repo, C)
         if pm == cm and first == '_yaml.CEmitter':
-            rule.ok('%s:%d' % (C.module.rel, C.node.lineno), '%s ~ %s: %s, CEmitter first in the MRO' % (C.name, P.name, [x.split('.')[-1] for x in cm]))
+            rule.ok('%s:%d' % (C.module.rel, C.node.lineno), '%s ~ %s: %s, CEmitter first in the MRO' % (C.name, P.name, short(cm)))
         else:
             rule.fail('%s|%s' % (cq, ','.join(cm)), C.module.rel, C.node.lineno, cq,
                       'class %s(%s)' % (C.name, ', '.join(norm(b) for b in C.base_exprs)),
@@ -51,6 +206,8 @@ def r_class_composition(ctx, repo):
     for pq, cq in PAIRS_LOADERS + PAIRS_DUMPERS:
         C = repo.cls(cq)
         init = C.methods.get('__init__')
+        if init is None:
+            raise AnalysisError('%s defines no __init__: which base initialisers run is not recognised' % cq)
         called = set()
         for c in A.func_calls(init.node):
             if isinstance(c.func, ast.Attribute) and c.func.attr == '__init__':
@@ -63,7 +220,7 @@ def r_class_composition(ctx, repo):
             if isinstance(b, ClassInfo):
                 found = repo.lookup(b, '__init__')
                 if found and found[1] not in called and b.qualname == 'serializer.Serializer' \
-                        and C.mro_classes()[1].qualname == '_yaml.CEmitter':
+                        and _first_inventoried_base(repo, C) == '_yaml.CEmitter':
                     # Serializer is shadowed entirely by CEmitter (which precedes it in the MRO): its state is never used
                     pub = [m for m in b.methods if not m.startswith('_') and m not in ('anchor_node', 'generate_anchor', 'serialize_node')]
                     if all(repo.lookup(C, m)[0].qualname == '_yaml.CEmitter' for m in pub):
@@ -78,24 +235,78 @@ def r_class_composition(ctx, repo):
     return rule
 
 
+# ------------------------------------------------------------------------------------------------
+
 STYLE_CHARS = {'YAML_PLAIN_SCALAR_STYLE': '', 'YAML_SINGLE_QUOTED_SCALAR_STYLE': "'", 'YAML_DOUBLE_QUOTED_SCALAR_STYLE': '"',
                'YAML_LITERAL_SCALAR_STYLE': '|', 'YAML_FOLDED_SCALAR_STYLE': '>'}
+FLOW_STYLE = re.compile(r'YAML_(FLOW|BLOCK)_(SEQUENCE|MAPPING)_STYLE')
+STYLE_SITES_MIN = 15       # 31 sites confirmed by reading (15 scalar decode, 8 scalar encode, 8 collection decode)
 
 
-def _enum_branches(f, subject_suffix):
-    """{ENUM_MEMBER: [If node]} for tests `<x>.type == ENUM` / `<x> == ENUM` in f."""
-    out = {}
-    for n in walk_function(f.node):
-        if isinstance(n, ast.If) and isinstance(n.test, ast.Compare) and len(n.test.ops) == 1 \
-                and isinstance(n.test.ops[0], ast.Eq) and isinstance(n.test.comparators[0], ast.Name) \
-                and n.test.comparators[0].id.startswith('YAML_') and norm(n.test.left).endswith(subject_suffix):
-            out.setdefault(n.test.comparators[0].id, []).append(n)
-    return out
+def _enum_compare(test, members):
+    """(member, positive?) when the atomic test compares something with one libyaml enum member, else None."""
+    if isinstance(test, ast.Compare) and len(test.ops) == 1 and isinstance(test.ops[0], (ast.Eq, ast.NotEq, ast.Is, ast.IsNot)):
+        for side in (test.comparators[0], test.left):
+            if isinstance(side, ast.Name) and side.id in members:
+                return side.id, isinstance(test.ops[0], (ast.Eq, ast.Is))
+    return None
 
 
 def _camel(member, suffix):
     core = member[len('YAML_'):-len(suffix)]
     return ''.join(p.capitalize() for p in core.lower().split('_'))
+
+
+def _returned_constructors(live, ret):
+    """names of the callables whose result `ret` hands back ('None' for a literal None); None when not recognised."""
+    v = ret.ast.value
+    if v is None or _is_none(v):
+        return {'None'}
+    if isinstance(v, ast.Call):
+        return {norm(v.func)}
+    if isinstance(v, ast.Name):
+        out = set()
+        for n in live:
+            if n.kind == 'stmt' and isinstance(n.ast, ast.Assign) and any(isinstance(t, ast.Name) and t.id == v.id for t in n.ast.targets):
+                if isinstance(n.ast.value, ast.Call):
+                    out.add(norm(n.ast.value.func))
+                elif _is_none(n.ast.value):
+                    out.add('None')
+                else:
+                    return None
+        return out or None
+    return None
+
+
+def _style_literals(test):
+    """the style characters an encoder branch stands for: test is `<x> == 'c'`, `<x> in ('c', ...)` or an `or` of such
+    comparisons of one and the same <x>; None for any other test."""
+    parts = test.values if isinstance(test, ast.BoolOp) and isinstance(test.op, ast.Or) else [test]
+    subjects, lits = set(), set()
+    for c in parts:
+        if not (isinstance(c, ast.Compare) and len(c.ops) == 1):
+            return None
+        op, right = c.ops[0], c.comparators[0]
+        if isinstance(op, ast.Eq) and A.const_str(right) is not None:
+            lits.add(A.const_str(right))
+        elif isinstance(op, ast.In) and isinstance(right, (ast.Tuple, ast.List, ast.Set)) and right.elts \
+                and all(A.const_str(e) is not None for e in right.elts):
+            lits |= {A.const_str(e) for e in right.elts}
+        else:
+            return None
+        subjects.add(_dump(c.left))
+    return lits if len(subjects) == 1 else None
+
+
+def _literal_outcome(stmts):
+    """what a branch gives to the translated style: yields (value node, target name or None) for the `name = <literal or
+    constant name>` / `return <literal or constant name>` statements of the branch (straight-line statements only)."""
+    for s in stmts:
+        if isinstance(s, ast.Assign) and len(s.targets) == 1 and isinstance(s.targets[0], ast.Name) \
+                and isinstance(s.value, (ast.Constant, ast.Name)):
+            yield s.value, s.targets[0].id
+        elif isinstance(s, ast.Return) and isinstance(s.value, (ast.Constant, ast.Name)):
+            yield s.value, None
 
 
 def r_codec_exhaustive(ctx, repo):
@@ -113,115 +324,338 @@ def r_codec_exhaustive(ctx, repo):
         members = enums.get(enum)
         if not members:
             raise AnalysisError('enum %s not found in _yaml.pxd' % enum)
-        br = _enum_branches(f, '.type')
+        cfg = CFG(f.node)
+        tested = {}
+        for n in cfg.nodes:
+            if n.kind == 'test':
+                ec = _enum_compare(n.ast, members)
+                if ec:
+                    tested.setdefault(ec[0], n)
         for m in members:
-            if m not in br:
+            if m not in tested:
                 rule.fail('%s|missing|%s' % (f.qualname, m), f.module.rel, f.node.lineno, f.qualname, m,
                           '%s has no branch for %s: that %s falls through to "unknown %s type" (ValueError) in the C back-end'
                           % (fname, m, clssuffix.lower(), clssuffix.lower()))
                 continue
-            node = br[m][0]
+            node = tested[m]
             if m in ('YAML_NO_TOKEN', 'YAML_NO_EVENT'):
-                ok = any(isinstance(s, ast.Return) and isinstance(s.value, ast.Constant) and s.value.value is None for s in node.body)
                 want = 'None'
+            elif m in ('YAML_VERSION_DIRECTIVE_TOKEN', 'YAML_TAG_DIRECTIVE_TOKEN'):
+                want = 'DirectiveToken'
             else:
                 want = _camel(m, suffix) + clssuffix
-                if m == 'YAML_VERSION_DIRECTIVE_TOKEN' or m == 'YAML_TAG_DIRECTIVE_TOKEN':
-                    want = 'DirectiveToken'
-                rets = [s for s in ast.walk(ast.Module(body=node.body, type_ignores=[])) if isinstance(s, ast.Return)]
-                ok = bool(rets) and all(isinstance(r.value, ast.Call) and norm(r.value.func) == want for r in rets)
-            if ok:
-                rule.ok(f.loc(node), '%s -> %s' % (m, want))
+
+            # what the codec can return when the type field holds exactly this member
+            def atom(t, m=m):
+                ec = _enum_compare(t, members)
+                if ec is None:
+                    return None
+                return (ec[0] == m) == ec[1]
+            live = A.cfg_reach_under(cfg, atom)
+            rets = [n for n in live if n.kind == 'return']
+            built = set()
+            recognised = True
+            for r in rets:
+                got = _returned_constructors(live, r)
+                if got is None:
+                    recognised = False
+                else:
+                    built |= got
+            if rets and recognised and built == {want}:
+                rule.ok(f.loc(node.ast), '%s -> %s' % (m, want))
             else:
-                rule.fail('%s|class|%s' % (f.qualname, m), f.module.rel, node.lineno, f.qualname, norm(node.test),
-                          'the branch for %s does not return a %s' % (m, want))
+                rule.fail('%s|class|%s' % (f.qualname, m), f.module.rel, node.lineno, f.qualname, norm(node.ast),
+                          'the branch for %s does not return a %s%s' % (m, want, (' (it returns %s)' % sorted(built)) if built else ''))
     f = E.methods.get('_object_to_event')
+    if f is None:
+        raise AnalysisError('CEmitter._object_to_event has vanished')
     classes = [c.name for c in repo.modules['events'].classes.values()
                if not c.name.startswith('Collection') and c.name not in ('Event', 'NodeEvent')]
-    txt = norm(f.node)
+    dispatched = set()
+    for n in walk_function(f.node):
+        if isinstance(n, ast.Compare) and len(n.ops) == 1 and isinstance(n.ops[0], (ast.Is, ast.Eq)):
+            for side in (n.left, n.comparators[0]):
+                if isinstance(side, ast.Name):
+                    dispatched.add(side.id)
+        elif isinstance(n, ast.Call) and isinstance(n.func, ast.Name) and n.func.id == 'isinstance' and len(n.args) == 2:
+            for x in ast.walk(n.args[1]):
+                if isinstance(x, ast.Name):
+                    dispatched.add(x.id)
     for cname in classes:
-        if ('event_class is %s' % cname) in txt:
+        if cname in dispatched:
             rule.ok(f.loc(), '_object_to_event handles %s' % cname)
         else:
             rule.fail('%s|missing|%s' % (f.qualname, cname), f.module.rel, f.node.lineno, f.qualname, cname,
                       '_object_to_event has no branch for %s: emitting that event through a C dumper raises TypeError' % cname)
-    # style constants
+    # style constants, wherever they are translated (in the codecs themselves or in a helper they share)
     n_style = 0
     for fn in repo.all_functions(['_yaml']):
-        # decode direction: if <x>.style == CONST: style = 'c'
         for n in walk_function(fn.node):
-            if isinstance(n, ast.If) and isinstance(n.test, ast.Compare) and len(n.test.ops) == 1 \
-                    and isinstance(n.test.comparators[0], ast.Name) and n.test.comparators[0].id in STYLE_CHARS \
-                    and norm(n.test.left).endswith('.style'):
-                const = n.test.comparators[0].id
-                vals = [s.value for s in n.body if isinstance(s, ast.Assign) and norm(s.targets[0]) == 'style']
-                if vals:
+            if not isinstance(n, ast.If):
+                continue
+            t = n.test
+            cmp_const = t.comparators[0].id if (isinstance(t, ast.Compare) and len(t.ops) == 1 and isinstance(t.ops[0], ast.Eq)
+                                                and isinstance(t.comparators[0], ast.Name)) else None
+            # decode direction: <field> == CONST  ->  the style character of the Python back-end
+            if cmp_const in STYLE_CHARS:
+                const = cmp_const
+                for value, _tgt in _literal_outcome(n.body):
+                    if not isinstance(value, ast.Constant) or not isinstance(value.value, str):
+                        continue
                     n_style += 1
-                    v = A.const_str(vals[0])
+                    v = value.value
                     if v == STYLE_CHARS[const]:
                         rule.ok(fn.loc(n), '%s decodes %s as %r' % (fn.name, const, v))
                     else:
                         rule.fail('%s|style-decode|%s' % (fn.qualname, const), fn.module.rel, n.lineno, fn.qualname, norm(n.test),
                                   '%s is decoded as style %r; the Python back-end uses %r' % (const, v, STYLE_CHARS[const]))
-            # encode direction: if style_object == 'c' ...: scalar_style = CONST
-            if isinstance(n, ast.If) and 'style_object ==' in norm(n.test):
-                consts = [s.value.id for s in n.body if isinstance(s, ast.Assign) and norm(s.targets[0]) == 'scalar_style'
-                          and isinstance(s.value, ast.Name)]
-                lits = {A.const_str(c.comparators[0]) for c in ast.walk(n.test) if isinstance(c, ast.Compare)}
-                if consts:
-                    n_style += 1
-                    if lits == {STYLE_CHARS.get(consts[0])}:
-                        rule.ok(fn.loc(n), '%s encodes %r as %s' % (fn.name, STYLE_CHARS[consts[0]], consts[0]))
-                    else:
-                        rule.fail('%s|style-encode|%s' % (fn.qualname, consts[0]), fn.module.rel, n.lineno, fn.qualname, norm(n.test),
-                                  'the style %s is encoded as %s; the decoders map that constant to %r'
-                                  % (sorted(lits), consts[0], STYLE_CHARS.get(consts[0])))
-    # flow styles
-    for fn in repo.all_functions(['_yaml']):
-        for n in walk_function(fn.node):
-            if isinstance(n, ast.If) and isinstance(n.test, ast.Compare) and isinstance(n.test.comparators[0], ast.Name) \
-                    and re.fullmatch(r'YAML_(FLOW|BLOCK)_(SEQUENCE|MAPPING)_STYLE', n.test.comparators[0].id):
-                const = n.test.comparators[0].id
-                vals = [s.value for s in n.body if isinstance(s, ast.Assign) and norm(s.targets[0]) == 'flow_style']
-                if vals:
+                    break
+            # collection styles: <field> == YAML_FLOW_*_STYLE -> flow_style True, YAML_BLOCK_*_STYLE -> False
+            elif cmp_const is not None and FLOW_STYLE.fullmatch(cmp_const):
+                const = cmp_const
+                for value, _tgt in _literal_outcome(n.body):
+                    if not isinstance(value, ast.Constant) or not isinstance(value.value, bool):
+                        continue
                     n_style += 1
                     want = const.startswith('YAML_FLOW')
-                    if isinstance(vals[0], ast.Constant) and vals[0].value is want:
+                    if value.value is want:
                         rule.ok(fn.loc(n), '%s: %s -> flow_style=%s' % (fn.name, const, want))
                     else:
                         rule.fail('%s|flow|%s' % (fn.qualname, const), fn.module.rel, n.lineno, fn.qualname, norm(n.test),
-                                  '%s is decoded as flow_style=%s' % (const, norm(vals[0])))
-    if n_style < 20:
-        raise AnalysisError('style constant sites: %d found, >= 20 confirmed' % n_style)
+                                  '%s is decoded as flow_style=%s' % (const, norm(value)))
+                    break
+            # encode direction: <style object> == 'c' [or ...]  ->  CONST
+            else:
+                consts = [value.id for value, _tgt in _literal_outcome(n.body) if isinstance(value, ast.Name) and value.id in STYLE_CHARS]
+                if not consts:
+                    continue
+                lits = _style_literals(n.test)
+                if not lits:
+                    continue        # not a comparison of one style object with style characters
+                n_style += 1
+                if lits == {STYLE_CHARS[consts[0]]}:
+                    rule.ok(fn.loc(n), '%s encodes %r as %s' % (fn.name, STYLE_CHARS[consts[0]], consts[0]))
+                else:
+                    rule.fail('%s|style-encode|%s' % (fn.qualname, consts[0]), fn.module.rel, n.lineno, fn.qualname, norm(n.test),
+                              'the style %s is encoded as %s; the decoders map that constant to %r'
+                              % (sorted(lits), consts[0], STYLE_CHARS[consts[0]]))
+    if n_style < STYLE_SITES_MIN:
+        raise AnalysisError('style constant sites: %d found, at least %d expected (31 confirmed by reading)' % (n_style, STYLE_SITES_MIN))
     return rule
 
 
+# ------------------------------------------------------------------------------------------------
+# composer siblings
+
+def _node_construction(f, kind):
+    """(name of the local that receives `Kind(...)`, the constructor call) in f."""
+    found = []
+    for n in walk_function(f.node):
+        if isinstance(n, ast.Assign) and len(n.targets) == 1 and isinstance(n.targets[0], ast.Name) \
+                and isinstance(n.value, ast.Call) and isinstance(n.value.func, ast.Name) and n.value.func.id == kind:
+            found.append((n.targets[0].id, n.value))
+    if len(found) != 1:
+        raise AnalysisError('%s: the construction `node = %s(...)` was not recognised (%d candidates)' % (f.qualname, kind, len(found)))
+    return found[0]
+
+
+def _ctor_arg(ctor, i, kw):
+    """argument i of a node constructor call (Node(tag, value, ...)), positional or by keyword; None when absent."""
+    if len(ctor.args) > i:
+        return ctor.args[i]
+    for k in ctor.keywords:
+        if k.arg == kw:
+            return k.value
+    return None
+
+
+def _resolve_calls(f, kind):
+    return [c for c in A.func_calls(f.node) if _is_self_call(c, ('resolve',)) and c.args
+            and isinstance(c.args[0], ast.Name) and c.args[0].id == kind]
+
+
+def _tag_sources(f, ctor):
+    """structural identities of the expressions that denote the event's tag in f: the local handed to the node constructor
+    as its tag and what that local is read from (`tag = event.tag`, `tag = PyUnicode_FromYamlString(<field>.tag)`)."""
+    tag = _ctor_arg(ctor, 0, 'tag')
+    if not isinstance(tag, ast.Name):
+        raise AnalysisError('%s: the tag argument of the node constructor is not a local variable' % f.qualname)
+    var = tag.id
+    keys = {_dump(tag)}
+    for n in walk_function(f.node):
+        if isinstance(n, ast.Assign) and any(isinstance(t, ast.Name) and t.id == var for t in n.targets):
+            v = n.value
+            if isinstance(v, ast.Call) and not _is_self_call(v, ('resolve',)) and len(v.args) == 1:
+                v = v.args[0]
+            if isinstance(v, (ast.Attribute, ast.Name)):
+                keys.add(_dump(v))
+    return keys
+
+
+# the tag of the event in the four situations that matter: no tag at all, the non-specific tag "!", an ordinary tag, a
+# local tag that merely starts with "!"
+TAG_WORLDS = (None, '!', 'tag:yaml.org,2002:str', '!local')
+
+
+def _tag_atom(test, keys, tag):
+    """value of an atomic test about the event's tag when the tag is `tag` (None: absent): True / False; None when the test
+    is not about the tag (or would not be evaluated for that tag); 'other' when it mentions the tag in a form that is not
+    understood."""
+    def mentions(e):
+        return any(_dump(x) in keys for x in ast.walk(e) if isinstance(x, ast.expr))
+    if not mentions(test):
+        return None
+    if _dump(test) in keys:                     # truthiness of the tag itself
+        return bool(tag)
+    if isinstance(test, ast.Compare) and len(test.ops) == 1:
+        op, left, right = test.ops[0], test.left, test.comparators[0]
+        if mentions(right) and not mentions(left) and isinstance(op, (ast.Is, ast.IsNot, ast.Eq, ast.NotEq)):
+            left, right = right, left
+        if mentions(right):
+            return 'other'
+        # what the left-hand side denotes
+        if _dump(left) in keys:
+            subject = ('tag', tag)
+        elif isinstance(left, ast.Subscript) and _dump(left.value) in keys and isinstance(left.slice, ast.Constant) \
+                and isinstance(left.slice.value, int) and 0 <= left.slice.value <= 1:
+            if tag is None:
+                return None                     # a character of an absent tag is never looked at
+            subject = ('char', (tag + '\x00')[left.slice.value])     # C string: the terminator follows the last character
+        else:
+            return 'other'
+        # what it is compared with
+        if isinstance(right, ast.Name) and right.id == 'NULL':
+            const = [None]
+        elif isinstance(right, ast.Constant):
+            const = [0 if (subject[0] == 'char' and right.value == '\x00') else right.value]
+        elif isinstance(right, (ast.Tuple, ast.List, ast.Set)) and all(isinstance(e, ast.Constant) for e in right.elts):
+            const = [e.value for e in right.elts]
+        else:
+            return 'other'
+        value = subject[1]
+        if subject[0] == 'char' and value == '\x00':
+            value = 0
+        if isinstance(op, (ast.Is, ast.Eq)):
+            return value == const[0] if len(const) == 1 and not isinstance(right, (ast.Tuple, ast.List, ast.Set)) else 'other'
+        if isinstance(op, (ast.IsNot, ast.NotEq)):
+            return value != const[0] if len(const) == 1 and not isinstance(right, (ast.Tuple, ast.List, ast.Set)) else 'other'
+        if isinstance(op, ast.In) and isinstance(right, (ast.Tuple, ast.List, ast.Set)):
+            return value in const
+        if isinstance(op, ast.NotIn) and isinstance(right, (ast.Tuple, ast.List, ast.Set)):
+            return value not in const
+    return 'other'
+
+
+def _resolves_exactly_nonspecific(f, kind, ctor):
+    """self.resolve(Kind, ...) is reached exactly when the event has no tag or the tag "!" (evaluated on the CFG)."""
+    keys = _tag_sources(f, ctor)
+    cfg = CFG(f.node)
+    sites = _cfg_nodes_where(cfg, lambda x: _is_self_call(x, ('resolve',)) and x.args and isinstance(x.args[0], ast.Name)
+                             and x.args[0].id == kind)
+    if not sites:
+        return False
+    for tag in TAG_WORLDS:
+        def atom(t, tag=tag):
+            v = _tag_atom(t, keys, tag)
+            if v == 'other':
+                raise AnalysisError('%s: test on the tag not recognised: %s' % (f.qualname, norm(t)[:80]))
+            return v
+        live = A.cfg_reach_under(cfg, atom)
+        reached = any(s in live for s in sites)
+        if reached != (tag in (None, '!')):
+            return False
+    return True
+
+
 def _features_composer(repo, K, names):
-    """feature signature of a composer implementation."""
+    """feature signature of a composer implementation (each feature a fact about the resolved code, found by role)."""
     cn, sc, sq, mp, doc = names
     feats = {}
     f = K.methods[cn]
-    t = norm(f.node)
-    feats['undefined alias -> ComposerError'] = 'not in self.anchors' in t and 'ComposerError' in t
-    feats['duplicate anchor -> ComposerError'] = ('anchor in self.anchors' in t) and t.count('raise ComposerError') >= 2
-    feats['descend(parent, index) / ascend bracket'] = 'self.descend_resolver(parent, index)' in t and 'self.ascend_resolver()' in t
+    parent, index = _param(f, 1, 'parent'), _param(f, 2, 'index')
+    env = {'_N_p': _nm(parent), '_N_i': _nm(index)}
+    cfg = CFG(f.node)
+    live = cfg.reachable()
+    absent, present = [], []
+    for n in cfg.nodes:
+        t = n.ast
+        if n.kind == 'test' and isinstance(t, ast.Compare) and len(t.ops) == 1 and isinstance(t.ops[0], (ast.In, ast.NotIn)) \
+                and _is_self_attr(t.comparators[0], 'anchors'):
+            isin = isinstance(t.ops[0], ast.In)
+            present.append((n, isin))
+            absent.append((n, not isin))
+    raises = [n for n in cfg.nodes if n.kind == 'raise' and n in live and isinstance(n.ast, ast.Raise)
+              and isinstance(n.ast.exc, ast.Call) and norm(n.ast.exc.func).split('.')[-1] == 'ComposerError']
+    feats['undefined alias -> ComposerError'] = bool(absent) and any(cfg.guarded(r, edges=absent) for r in raises)
+    feats['duplicate anchor -> ComposerError'] = bool(present) and any(cfg.guarded(r, edges=present) for r in raises)
+    descends = _cfg_nodes_where(cfg, lambda x: isinstance(x, ast.Call) and M.match(M.compile_pattern('self.descend_resolver(_N_p, _N_i)')[1],
+                                                                                  x, dict(env)))
+    ascends = _cfg_nodes_where(cfg, lambda x: isinstance(x, ast.Call) and M.match(M.compile_pattern('self.ascend_resolver()')[1], x, {}))
+    children = _cfg_nodes_where(cfg, lambda x: _is_self_call(x, (sc, sq, mp)))
+    feats['descend(parent, index) / ascend bracket'] = bool(descends) and bool(ascends) and bool(children) and \
+        all(cfg.guarded(c, nodes=descends) for c in children) and \
+        all(not cfg.paths_to_normal_exit_avoiding(_succs(cfg, c), ascends) for c in children)
+
+    # scalar
     g = K.methods[sc]
-    t = norm(g.node)
-    feats['scalar: resolve(ScalarNode, value, (plain, quoted))'] = bool(re.search(r'self\.resolve\(ScalarNode, (event\.)?value, ', t))
-    feats['scalar: anchor stored'] = 'self.anchors[anchor] = node' in t
+    anchor = _param(g, 1, 'anchor')
+    var, ctor = _node_construction(g, 'ScalarNode')
+    value_arg = _ctor_arg(ctor, 1, 'value')
+    value_arg = _fold(repo, g.module, value_arg) if value_arg is not None else None
+    feats['scalar: resolve(ScalarNode, value, (plain, quoted))'] = value_arg is not None and not _is_none(value_arg) and any(
+        len(c.args) == 3 and _dump(_fold(repo, g.module, c.args[1])) == _dump(value_arg) for c in _resolve_calls(g, 'ScalarNode'))
+    feats['scalar: anchor stored'] = M.has(g.node, 'self.anchors[_N_a] = _N_n', {'_N_a': _nm(anchor), '_N_n': _nm(var)})
+    feats['scalar: resolved exactly when the tag is absent or "!"'] = _resolves_exactly_nonspecific(g, 'ScalarNode', ctor)
+
+    # collections
+    ctors = {}
     for nm, kind, label in ((sq, 'SequenceNode', 'sequence'), (mp, 'MappingNode', 'mapping')):
         h = K.methods[nm]
-        t = norm(h.node)
-        feats['%s: resolve(%s, None, implicit)' % (label, kind)] = bool(re.search(r'self\.resolve\(%s, None, ' % kind, t))
-        feats['%s: anchor stored' % label] = 'self.anchors[anchor] = node' in t
-    t = norm(K.methods[sq].node)
-    feats['sequence: child (node, index)'] = bool(re.search(r'compose_node\(node, index\)', t))
-    t = norm(K.methods[mp].node)
-    feats['mapping: key (node, None), value (node, item_key)'] = bool(re.search(r'compose_node\(node, None\)', t)) and \
-        bool(re.search(r'compose_node\(node, item_key\)', t))
-    feats['mapping: pairs appended in order'] = 'append((item_key, item_value))' in t
-    t = norm(K.methods[doc].node)
-    feats['document: anchors reset'] = 'self.anchors = {}' in t
+        anchor = _param(h, 1, 'anchor')
+        var, ctor = _node_construction(h, kind)
+        ctors[nm] = (var, ctor)
+        feats['%s: resolve(%s, None, implicit)' % (label, kind)] = any(
+            len(c.args) == 3 and _is_none(_fold(repo, h.module, c.args[1])) for c in _resolve_calls(h, kind))
+        feats['%s: anchor stored' % label] = M.has(h.node, 'self.anchors[_N_a] = _N_n', {'_N_a': _nm(anchor), '_N_n': _nm(var)})
+        feats['%s: resolved exactly when the tag is absent or "!"' % label] = _resolves_exactly_nonspecific(h, kind, ctor)
+
+    def items_of(var, ctor):
+        """expressions that denote the item list of the node under construction."""
+        out = {_dump(ast.Attribute(value=_nm(var), attr='value', ctx=ast.Load()))}
+        items = _ctor_arg(ctor, 1, 'value')
+        if isinstance(items, ast.Name):
+            out.add(_dump(items))
+        return out
+
+    # sequence: every child is composed with (node, position) and appended
+    h = K.methods[sq]
+    var, ctor = ctors[sq]
+    hcfg = CFG(h.node)
+    ok = False
+    for site in _cfg_nodes_where(hcfg, lambda x: _is_self_call(x, (cn,))):
+        for c in own_exprs(site):
+            if not (_is_self_call(c, (cn,)) and len(c.args) == 2 and isinstance(c.args[0], ast.Name) and c.args[0].id == var):
+                continue
+            pos = c.args[1]
+            if isinstance(pos, ast.Name) and _counter_protocol(hcfg, pos.id, site):
+                ok = True
+            elif isinstance(pos, ast.Call) and isinstance(pos.func, ast.Name) and pos.func.id == 'len' and len(pos.args) == 1 \
+                    and _dump(pos.args[0]) in items_of(var, ctor):
+                ok = True
+    feats['sequence: child (node, index)'] = ok
+
+    # mapping: key composed with (node, None), value with (node, key node), the pair appended in that order
+    h = K.methods[mp]
+    var, ctor = ctors[mp]
+    env = {'_N_n': _nm(var)}
+    pair = M.find(h.node, '_N_k = self.%s(_N_n, None)\n_N_v = self.%s(_N_n, _N_k)' % (cn, cn), env) or \
+        M.find(h.node, '_N_k = self.%s(_N_n, None)\n__l.append((_N_k, self.%s(_N_n, _N_k)))' % (cn, cn), env)
+    feats['mapping: key (node, None), value (node, item_key)'] = bool(pair)
+    appended = M.find(h.node, '_N_k = self.%s(_N_n, None)\n_N_v = self.%s(_N_n, _N_k)\n__l.append((_N_k, _N_v))' % (cn, cn), env) + \
+        M.find(h.node, '_N_k = self.%s(_N_n, None)\n__l.append((_N_k, self.%s(_N_n, _N_k)))' % (cn, cn), env)
+    feats['mapping: pairs appended in order'] = any(_dump(e['__l']) in items_of(var, ctor) for n, e in appended)
+
+    feats['document: anchors reset'] = M.any_of(K.methods[doc].node, 'self.anchors = {}', 'self.anchors = dict()', 'self.anchors.clear()')
     return feats
 
 
@@ -244,83 +678,250 @@ def r_composer_sibling(ctx, repo):
             rule.fail('composer-sibling|%s|%s' % (feat, who.name), who.module.rel, who.node.lineno, who.qualname, feat,
                       'the %s composer does not have the feature "%s" that its sibling has: nodes / errors differ between the '
                       'back-ends for documents that exercise it' % ('Python' if who is K1 else 'C', feat))
-    # non-specific tag test: None or '!'
-    t1 = norm(K1.methods['compose_scalar_node'].node)
-    t2 = norm(K2.methods['_compose_scalar_node'].node)
-    if "tag is None or tag == '!'" in t1 and "tag == NULL" in t2.replace('self.parsed_event.data.scalar.', '') \
-            and "tag[0] == '!'" in t2.replace('self.parsed_event.data.scalar.', ''):
-        rule.ok(K1.module.rel, 'both resolve when the tag is absent or "!"')
-    else:
-        rule.fail('composer-sibling|nonspecific', K1.module.rel, K1.node.lineno, K1.qualname, "tag is None or tag == '!'",
-                  'the two composers disagree on when a tag is non-specific')
     return rule
+
+
+# ------------------------------------------------------------------------------------------------
+# serializer siblings
+
+SERIALIZERS = [('serializer.Serializer', 'anchor_node', 'serialize_node', 'generate_anchor'),
+               ('_yaml.CEmitter', '_anchor_node', '_serialize_node', None)]
+
+
+def _anchor_templates(fns):
+    """{template string: counter attribute} for every `'<template>' % self.<counter>` in the given functions."""
+    out = {}
+    for f in fns:
+        for n in walk_function(f.node):
+            if isinstance(n, ast.BinOp) and isinstance(n.op, ast.Mod) and isinstance(n.left, ast.Constant) \
+                    and isinstance(n.left.value, str) and _is_self_attr(n.right):
+                out[n.left.value] = n.right.attr
+    return out
+
+
+def _features_serializer(repo, K, names):
+    an, sn, gen = names
+    feats = {}
+    info = {}
+    for name in ('open', 'close', 'serialize', an, sn):
+        if name not in K.methods:
+            raise AnalysisError('%s.%s has vanished' % (K.qualname, name))
+    for name in ('open', 'close', 'serialize'):
+        f = K.methods[name]
+        info['messages:' + name] = sorted(str(A.const_str(c.args[0])) for c in A.func_calls(f.node)
+                                          if norm(c.func).split('.')[-1] == 'SerializerError' and c.args)
+    # anchors: first visit registers None, the second one numbers the node - once
+    f = K.methods[an]
+    node = _param(f, 1, 'node')
+    env = {'_N_n': _nm(node)}
+    cfg = CFG(f.node)
+    seen_edges, unseen_edges, unnumbered_edges = [], [], []
+    for n in cfg.nodes:
+        if n.kind != 'test':
+            continue
+        for src, pos in (('_N_n in self.anchors', True), ('_N_n not in self.anchors', False)):
+            if M.match(M.compile_pattern(src)[1], n.ast, dict(env)):
+                seen_edges.append((n, pos))
+                unseen_edges.append((n, not pos))
+        for src, pos in (('self.anchors[_N_n] is None', True), ('self.anchors[_N_n] is not None', False),
+                         ('self.anchors[_N_n] == None', True), ('self.anchors[_N_n] != None', False)):
+            if M.match(M.compile_pattern(src)[1], n.ast, dict(env)):
+                unnumbered_edges.append((n, pos))
+    stores = [(n, e) for n in cfg.nodes if n.kind == 'stmt' and isinstance(n.ast, ast.Assign)
+              for _x, e in [M.first([n.ast], 'self.anchors[_N_n] = __v', env)] if e is not None]
+    registers = [n for n, e in stores if _is_none(e['__v'])]
+    numbers = [n for n, e in stores if not _is_none(e['__v'])]
+    feats['first-visit anchor numbering'] = bool(registers) and bool(numbers) and bool(seen_edges) and bool(unnumbered_edges) and \
+        all(cfg.guarded(n, edges=unseen_edges) for n in registers) and \
+        all(cfg.guarded(n, edges=seen_edges) and cfg.guarded(n, edges=unnumbered_edges) for n in numbers)
+    tfns = [K.methods[an]] + ([K.methods[gen]] if gen and gen in K.methods else [])
+    templates = _anchor_templates(tfns)
+    info['templates'] = sorted(templates)
+    counters = set(templates.values())
+    feats['anchor counter incremented before it is formatted'] = len(counters) == 1 and any(
+        M.has(t.node, 'self.%s += 1' % next(iter(counters))) for t in tfns)
+
+    # serialize_node
+    f = K.methods[sn]
+    node, parent, index = _param(f, 1, 'node'), _param(f, 2, 'parent'), _param(f, 3, 'index')
+    env = {'_N_n': _nm(node), '_N_p': _nm(parent), '_N_i': _nm(index)}
+    feats['descend_resolver(parent, index) / ascend'] = M.has(f.node, 'self.descend_resolver(_N_p, _N_i)', env) and \
+        M.has(f.node, 'self.ascend_resolver()')
+    nenv = {'_N_n': _nm(node)}
+    counted = M.find(f.node, 'for _N_it in _N_n.value:\n    self.%s(_N_it, _N_n, _N_c)\n    _N_c += 1' % sn, nenv)
+    feats['sequence items serialized as (item, node, index)'] = \
+        any(M.has(f.node, '_N_c = 0', {'_N_c': e['_N_c']}) for n, e in counted) or \
+        M.has(f.node, 'for (_N_c, _N_it) in enumerate(_N_n.value):\n    self.%s(_N_it, _N_n, _N_c)' % sn, nenv)
+    feats['mapping key (key, node, None) / value (value, node, key)'] = M.has(
+        f.node, 'for (_N_k, _N_v) in _N_n.value:\n    self.%s(_N_k, _N_n, None)\n    self.%s(_N_v, _N_n, _N_k)' % (sn, sn), nenv)
+    feats['scalar implicit = (tag == resolve(.., (True, False)), tag == resolve(.., (False, True)))'] = \
+        M.has(f.node, 'self.resolve(ScalarNode, _N_n.value, (True, False))', nenv) and \
+        M.has(f.node, 'self.resolve(ScalarNode, _N_n.value, (False, True))', nenv)
+    feats['collection implicit = (tag == resolve(Kind, value, True))'] = \
+        M.has(f.node, 'self.resolve(SequenceNode, _N_n.value, True)', nenv) and \
+        M.has(f.node, 'self.resolve(MappingNode, _N_n.value, True)', nenv)
+
+    # per-document reset
+    f = K.methods['serialize']
+    def cleared(attr):
+        return M.any_of(f.node, 'self.%s = {}' % attr, 'self.%s = dict()' % attr, 'self.%s.clear()' % attr)
+    feats['per-document reset of serialized_nodes / anchors / counter'] = cleared('serialized_nodes') and cleared('anchors') and \
+        len(counters) == 1 and M.has(f.node, 'self.%s = 0' % next(iter(counters)))
+    return feats, info
 
 
 def r_serializer_sibling(ctx, repo):
     rule = ctx.rule('R-SERIALIZER-SIBLING', 'Serializer and CEmitter agree on state errors, anchor numbering, per-document reset and resolver use')
-    S = repo.cls('serializer.Serializer')
-    C = repo.cls('_yaml.CEmitter')
+    sides = []
+    for kq, an, sn, gen in SERIALIZERS:
+        K = repo.cls(kq)
+        sides.append((K,) + _features_serializer(repo, K, (an, sn, gen)))
+    (S, fa, ia), (C, fb, ib) = sides
     checks = []
     for name in ('open', 'close', 'serialize'):
-        a, b = S.methods.get(name), C.methods.get(name)
-        if a is None or b is None:
-            raise AnalysisError('%s missing in Serializer/CEmitter' % name)
-        ma = sorted(A.const_str(c.args[0]) for c in A.func_calls(a.node) if norm(c.func) == 'SerializerError' and c.args)
-        mb = sorted(A.const_str(c.args[0]) for c in A.func_calls(b.node) if norm(c.func) == 'SerializerError' and c.args)
-        checks.append(('%s: SerializerError messages %s' % (name, ma), ma == mb and bool(ma)))
-    ta, tb = norm(S.methods['anchor_node'].node), norm(C.methods['_anchor_node'].node)
-    checks.append(('first-visit anchor numbering', 'self.anchors[node] is None' in ta and 'self.anchors[node] is None' in tb
-                   and 'self.anchors[node] = None' in ta and 'self.anchors[node] = None' in tb))
-    from . import match as M
-    tp = {e['__t'].value for n, e in M.find(S.methods['generate_anchor'].node, '__t % self.last_anchor_id')
-          if isinstance(e['__t'], ast.Constant)} if 'generate_anchor' in S.methods else set()
-    tcs = {e['__t'].value for n, e in M.find(C.methods['_anchor_node'].node, '__t % self.last_alias_id')
-           if isinstance(e['__t'], ast.Constant)}
-    checks.append(('anchor template %s' % sorted(tp), bool(tp) and tp == tcs))
-    ta, tb = norm(S.methods['serialize_node'].node), norm(C.methods['_serialize_node'].node)
-    checks.append(('descend_resolver(parent, index) / ascend', 'self.descend_resolver(parent, index)' in ta and
-                   'self.descend_resolver(parent, index)' in tb and 'self.ascend_resolver()' in ta and 'self.ascend_resolver()' in tb))
-    checks.append(('sequence items serialized as (item, node, index)', 'self.serialize_node(item, node, index)' in ta and
-                   '_serialize_node(item, node, item_index)' in tb))
-    checks.append(('mapping key (key, node, None) / value (value, node, key)', 'self.serialize_node(key, node, None)' in ta and
-                   'self.serialize_node(value, node, key)' in ta and '_serialize_node(item_key, node, None)' in tb and
-                   '_serialize_node(item_value, node, item_key)' in tb))
-    checks.append(('collection implicit = (tag == resolve(Kind, value, True))', 'self.resolve(SequenceNode, node.value, True)' in ta and
-                   'self.resolve(SequenceNode, node.value, True)' in tb and 'self.resolve(MappingNode, node.value, True)' in ta and
-                   'self.resolve(MappingNode, node.value, True)' in tb))
-    ta, tb = norm(S.methods['serialize'].node), norm(C.methods['serialize'].node)
-    checks.append(('per-document reset of serialized_nodes / anchors / counter',
-                   all(x in ta for x in ('self.serialized_nodes = {}', 'self.anchors = {}', 'self.last_anchor_id = 0')) and
-                   all(x in tb for x in ('self.serialized_nodes = {}', 'self.anchors = {}', 'self.last_alias_id = 0'))))
-    for what, ok in checks:
+        ma, mb = ia['messages:' + name], ib['messages:' + name]
+        checks.append(('%s: SerializerError messages %s' % (name, ma), ma == mb and bool(ma), None))
+    checks.append(('anchor template %s' % ia['templates'], bool(ia['templates']) and ia['templates'] == ib['templates'], None))
+    for feat in fa:
+        checks.append((feat, fa[feat] and fb[feat], None if fa[feat] == fb[feat] else ('Serializer' if not fa[feat] else 'CEmitter')))
+    for what, ok, who in checks:
         if ok:
             rule.ok('%s / %s' % (S.module.rel, C.module.rel), what)
         else:
             rule.fail('serializer-sibling|%s' % what[:50], S.module.rel, S.node.lineno, 'Serializer / CEmitter', what,
-                      'the Python serializer and the C emitter differ on: %s' % what)
+                      'the Python serializer and the C emitter differ on: %s%s' % (what, (' (not so in %s)' % who) if who else ''))
     return rule
+
+
+# ------------------------------------------------------------------------------------------------
+# the simple-key window
+
+class _Unknown(Exception):
+    pass
+
+
+def _window_value(e, dist, line_changed, key, defs, depth=0):
+    """value of an integer / boolean expression over the candidate `key` when the current position is `dist` characters
+    past the candidate's and the line has (not) changed; raises _Unknown for anything else."""
+    if depth > 6:
+        raise _Unknown()
+
+    def ev(x):
+        return _window_value(x, dist, line_changed, key, defs, depth + 1)
+    if isinstance(e, ast.Constant) and isinstance(e.value, (int, bool)):
+        return e.value
+    if isinstance(e, ast.Attribute) and isinstance(e.value, ast.Name):
+        # positions are taken relative to the candidate: key.index = 0, self.index = dist; likewise for the line
+        if e.value.id == key and e.attr == 'index':
+            return 0
+        if e.value.id == 'self' and e.attr == 'index':
+            return dist
+        if e.value.id == key and e.attr == 'line':
+            return 0
+        if e.value.id == 'self' and e.attr == 'line':
+            return 1 if line_changed else 0
+        raise _Unknown()
+    if isinstance(e, ast.Name) and e.id in defs and len(defs[e.id]) == 1:
+        return ev(defs[e.id][0])
+    if isinstance(e, ast.BinOp) and isinstance(e.op, (ast.Add, ast.Sub)):
+        a, b = ev(e.left), ev(e.right)
+        return a + b if isinstance(e.op, ast.Add) else a - b
+    if isinstance(e, ast.UnaryOp) and isinstance(e.op, ast.USub):
+        return -ev(e.operand)
+    if isinstance(e, ast.UnaryOp) and isinstance(e.op, ast.Not):
+        return not ev(e.operand)
+    if isinstance(e, ast.BoolOp):
+        vals = [ev(v) for v in e.values]
+        return all(vals) if isinstance(e.op, ast.And) else any(vals)
+    if isinstance(e, ast.Compare):
+        left = ev(e.left)
+        for op, right in zip(e.ops, e.comparators):
+            right = ev(right)
+            if isinstance(op, ast.Gt):
+                r = left > right
+            elif isinstance(op, ast.GtE):
+                r = left >= right
+            elif isinstance(op, ast.Lt):
+                r = left < right
+            elif isinstance(op, ast.LtE):
+                r = left <= right
+            elif isinstance(op, ast.Eq):
+                r = left == right
+            elif isinstance(op, ast.NotEq):
+                r = left != right
+            else:
+                raise _Unknown()
+            if not r:
+                return False
+            left = right
+        return True
+    raise _Unknown()
 
 
 def r_simple_key_limit(ctx, repo):
     rule = ctx.rule('R-SIMPLE-KEY-LIMIT', 'a simple-key candidate survives while the distance to the current position is at most 1024 '
                                           'characters (YAML 1.1: simple keys are limited to 1024 characters; libyaml uses the same bound)')
     f = repo.func('scanner.Scanner.stale_possible_simple_keys')
-    tests = [n for n in walk_function(f.node) if isinstance(n, ast.If) and 'key.index' in norm(n.test)]
-    if len(tests) != 1:
+    # the candidate: the local read from self.possible_simple_keys
+    keys = set()
+    for n in walk_function(f.node):
+        if isinstance(n, ast.Assign) and len(n.targets) == 1 and isinstance(n.targets[0], ast.Name) \
+                and isinstance(n.value, ast.Subscript) and _is_self_attr(n.value.value, 'possible_simple_keys'):
+            keys.add(n.targets[0].id)
+        elif isinstance(n, ast.For) and any(_is_self_attr(x, 'possible_simple_keys') for x in ast.walk(n.iter)) \
+                and any(isinstance(x, ast.Attribute) and x.attr in ('values', 'items') for x in ast.walk(n.iter)):
+            tgt = n.target.elts[-1] if isinstance(n.target, ast.Tuple) else n.target
+            if isinstance(tgt, ast.Name):
+                keys.add(tgt.id)
+    if len(keys) != 1:
+        raise AnalysisError('stale_possible_simple_keys: the candidate read from self.possible_simple_keys was not recognised')
+    key = next(iter(keys))
+    defs = {}
+    for n in walk_function(f.node):
+        if isinstance(n, ast.Assign) and len(n.targets) == 1 and isinstance(n.targets[0], ast.Name):
+            defs.setdefault(n.targets[0].id, []).append(n.value)
+    defs.pop(key, None)
+    cfg = CFG(f.node)
+    # where a candidate is given up: removed from the table (or, for a required key, reported as an error)
+    drops = [n for n in cfg.nodes if n.kind == 'stmt' and (
+        (isinstance(n.ast, ast.Delete) and any(isinstance(t, ast.Subscript) and _is_self_attr(t.value, 'possible_simple_keys')
+                                               for t in n.ast.targets)) or
+        any(isinstance(x, ast.Call) and isinstance(x.func, ast.Attribute) and x.func.attr == 'pop'
+            and _is_self_attr(x.func.value, 'possible_simple_keys') for x in own_exprs(n)))]
+    if not drops:
+        raise AnalysisError('stale_possible_simple_keys: the removal of a stale candidate was not found')
+
+    def mentions_position(t, depth=0):
+        return any(isinstance(x, ast.Attribute) and isinstance(x.value, ast.Name) and x.value.id in (key, 'self')
+                   and x.attr in ('index', 'line') for x in ast.walk(t)) or \
+            (depth < 6 and any(isinstance(x, ast.Name) and x.id in defs and len(defs[x.id]) == 1
+                               and mentions_position(defs[x.id][0], depth + 1) for x in ast.walk(t)))
+    window_tests = [n for n in cfg.nodes if n.kind == 'test' and mentions_position(n.ast)]
+    if not window_tests:
         raise AnalysisError('stale_possible_simple_keys: window test not found')
-    t = tests[0].test
+
+    def dropped(dist, line_changed):
+        def atom(t):
+            if not mentions_position(t):
+                return None
+            try:
+                return bool(_window_value(t, dist, line_changed, key, defs))
+            except _Unknown:
+                raise AnalysisError('stale_possible_simple_keys: window test not understood: %s' % norm(t)[:80])
+        live = A.cfg_reach_under(cfg, atom)
+        return any(d in live for d in drops)
     bad = []
     for diff, want in ((0, False), (1, False), (1023, False), (1024, False), (1025, True), (5000, True)):
-        src = norm(t).replace('key.line != self.line', 'False').replace('self.index - key.index', str(diff))
-        v = CW.eval_cond(repo, ast.parse(src, mode='eval').body, {})
+        v = dropped(diff, False)
         if v is not want:
             bad.append((diff, v))
-    src = norm(t).replace('key.line != self.line', 'True').replace('self.index - key.index', '0')
-    line_ok = CW.eval_cond(repo, ast.parse(src, mode='eval').body, {}) is True
+    line_ok = dropped(0, True)
+    where = min(window_tests, key=lambda n: n.lineno)
     if not bad and line_ok:
-        rule.ok(f.loc(tests[0]), 'candidate kept for distances <= 1024 on the same line, dropped beyond or on a new line')
+        rule.ok(f.loc(where.stmt), 'candidate kept for distances <= 1024 on the same line, dropped beyond or on a new line')
     else:
-        rule.fail('%s|window' % f.qualname, f.module.rel, tests[0].lineno, f.qualname, norm(t)[:80],
+        rule.fail('%s|window' % f.qualname, f.module.rel, where.lineno, f.qualname, norm(where.stmt.test)[:80]
+                  if hasattr(where.stmt, 'test') else norm(where.ast)[:80],
                   'the simple-key window is not "more than 1024 characters or another line": %s - a key of exactly that width is '
                   'rejected by the Python scanner and accepted by libyaml (or vice versa)'
                   % (', '.join('distance %d -> stale=%s' % b for b in bad) or 'line change does not expire the key'))
@@ -453,48 +1054,109 @@ def follow_sets():
     return first, follow
 
 
+def _token_args(f, call):
+    """the token classes named by a check_token(...) call; `*name` is expanded when `name` is a local bound once to a tuple
+    of class names (what is left of a helper that received the terminator set as a parameter)."""
+    out = []
+    for a in call.args:
+        if isinstance(a, ast.Starred):
+            v = a.value
+            if isinstance(v, ast.Name):
+                vals = [n.value for n in walk_function(f.node) if isinstance(n, ast.Assign) and len(n.targets) == 1
+                        and isinstance(n.targets[0], ast.Name) and n.targets[0].id == v.id]
+                if len(vals) != 1:
+                    raise AnalysisError('Parser.%s: the token set *%s of check_token is not a single local tuple' % (f.name, v.id))
+                v = vals[0]
+            if not isinstance(v, (ast.Tuple, ast.List)) or not all(isinstance(e, (ast.Name, ast.Attribute)) for e in v.elts):
+                raise AnalysisError('Parser.%s: the token set of %s is not a literal tuple of classes' % (f.name, norm(call)[:60]))
+            out.extend(norm(e).split('.')[-1] for e in v.elts)
+        elif isinstance(a, (ast.Name, ast.Attribute)):
+            out.append(norm(a).split('.')[-1])
+        else:
+            raise AnalysisError('Parser.%s: argument of %s is not a token class' % (f.name, norm(call)[:60]))
+    return out
+
+
+def _is_check_token(t):
+    return isinstance(t, ast.Call) and _is_self_attr(t.func, 'check_token') and bool(t.args)
+
+
+def _is_node_state_call(x):
+    """self.parse_block_node() / parse_flow_node() / parse_block_node_or_indentless_sequence() / parse_node(...)"""
+    return isinstance(x, ast.Call) and _is_self_attr(x.func) and x.func.attr.startswith('parse_') and 'node' in x.func.attr
+
+
+def _decision_outcome(cfg, f, test, token, visited, _depth=0):
+    """what the parser does when the look-ahead token is `token`, starting at the check_token test `test` and following
+    straight-line code and further check_token tests on the same look-ahead only: 'empty' (process_empty_scalar), 'node' (a
+    node state is entered) or None (anything else, including consuming the token)."""
+    if _depth > 12:
+        return None
+    visited.add(test)
+    label = token in _token_args(f, test.ast)
+    nxt = [m for (m, lab) in cfg.succ[test] if lab is label]
+    seen = set()
+    while len(nxt) == 1:
+        n = nxt[0]
+        if n in seen:
+            return None
+        seen.add(n)
+        if n.kind == 'test':
+            if _is_check_token(n.ast):
+                return _decision_outcome(cfg, f, n, token, visited, _depth + 1)
+            return None
+        if n.kind not in ('stmt', 'return'):
+            return None
+        exprs = list(own_exprs(n))
+        if any(isinstance(x, ast.Call) and _is_self_attr(x.func, 'get_token') for x in exprs):
+            return None             # the look-ahead token is consumed: what follows is about another token
+        if any(isinstance(x, ast.Call) and _is_self_attr(x.func, 'process_empty_scalar') for x in exprs):
+            return 'empty'
+        if any(_is_node_state_call(x) for x in exprs):
+            return 'node'
+        nxt = [m for (m, lab) in cfg.succ[n] if lab != 'exc']
+    return None
+
+
 def r_parser_lookahead(ctx, repo):
     rule = ctx.rule('R-PARSER-LOOKAHEAD', 'every "empty node" decision of the parser tests exactly the FOLLOW set that the documented '
                                           'event grammar gives for that optional node (LL(1) oracle computed from the grammar)')
     first, follow = follow_sets()
     P = repo.cls('parser.Parser')
-    found = 0
+    universe = set(TOKEN_CLASS.values())
     for (fname, lead), pos in EMPTY_DECISIONS.items():
         f = P.methods.get(fname)
         if f is None:
             raise AnalysisError('Parser.%s has vanished' % fname)
         want = {TOKEN_CLASS[t] for t in follow[pos]}
+        cfg = CFG(f.node)
+        live = cfg.reachable()
+        checks = [n for n in cfg.nodes if n.kind == 'test' and n in live and _is_check_token(n.ast)]
+        # the token that was consumed just before the decision: the decision lies on the True side of check_token(<lead>)
+        lead_edges = [(n, True) for n in checks if _token_args(f, n.ast) == [lead]] if lead is not None else []
         sites = []
-        for n in walk_function(f.node):
-            if not isinstance(n, ast.If):
+        for n in checks:
+            tokens = universe | {t for c in checks for t in _token_args(f, c.ast)}
+            visited = set()
+            outcome = {t: _decision_outcome(cfg, f, n, t, visited) for t in tokens}
+            if None in outcome.values() or set(outcome.values()) != {'empty', 'node'}:
+                continue        # not a choice between "the node is empty" and "parse the node"
+            if lead is not None and not (lead_edges and cfg.guarded(n, edges=lead_edges)):
                 continue
-            inner, pos_ = A.strip_not(n.test)
-            if not (isinstance(inner, ast.Call) and norm(inner.func) == 'self.check_token'):
-                continue
-            empty_branch = n.orelse if not pos_ else n.body
-            if not any(isinstance(c.func, ast.Attribute) and c.func.attr == 'process_empty_scalar' for c in A.calls_in(empty_branch)):
-                continue
-            # which token was consumed just before?
-            par = getattr(n, '_parent', None)
-            lead_here = None
-            if isinstance(par, ast.If) and isinstance(par.test, ast.Call) and norm(par.test.func) == 'self.check_token' \
-                    and n in par.body and len(par.test.args) == 1:
-                lead_here = norm(par.test.args[0])
-            if lead is not None and lead_here != lead:
-                continue
-            sites.append((n, {norm(a) for a in inner.args}))
-        if len(sites) != 1:
-            raise AnalysisError('Parser.%s: empty-node decision not recognised (%d candidates)' % (fname, len(sites)))
-        n, got = sites[0]
-        found += 1
+            sites.append((n, {t for t, o in outcome.items() if o == 'empty'}, visited))
+        # a decision spelled as a chain of tests is one decision: keep the test at which it starts
+        heads = [(n, got) for n, got, _v in sites if not any(m is not n and n in v for m, _g, v in sites)]
+        if len(heads) != 1:
+            raise AnalysisError('Parser.%s: empty-node decision not recognised (%d candidates)' % (fname, len(heads)))
+        n, got = heads[0]
         if got == want:
-            rule.ok(f.loc(n), '%s: empty iff next token in %s' % (fname, sorted(t.replace('Token', '') for t in want)))
+            rule.ok(f.loc(n.ast), '%s: empty iff next token in %s' % (fname, sorted(t.replace('Token', '') for t in want)))
         else:
             rule.fail('%s|lookahead|+%s|-%s' % (f.qualname, sorted(got - want), sorted(want - got)), f.module.rel, n.lineno, f.qualname,
-                      norm(n.test)[:90],
+                      norm(n.ast)[:90],
                       'the optional node at %s is taken to be empty for %s; the documented grammar gives FOLLOW = %s '
                       '(unexpected %s, missing %s): a document with the missing token after an empty entry is rejected by the '
                       'Python parser although it is grammatical (and accepted by libyaml)'
                       % (pos, sorted(got), sorted(want), sorted(got - want), sorted(want - got)))
-    rule.require_min(9, 'empty-node decisions')
+    rule.require_min((len(EMPTY_DECISIONS) + 1) // 2, 'empty-node decisions')
     return rule
